@@ -1169,6 +1169,223 @@ func (k *c12run) sharedLists() {
 	}
 }
 
+// boundary: the fixed boundary corpus, run first.
+//   - string lengths 8/16/32/64/65/128/129/255/256 in BYTES (ASCII) and in RUNES (2- and 3-byte runes,
+//     mixed with ASCII) for Jaro-Winkler on the raw bytes and for StringSimilarity (normalisation and
+//     CleanSpace; all-non-ASCII names take the as-written fallback); identical, one typo, shifted copy;
+//   - bytes: invalid UTF-8 lead bytes in front of the runes the normalisation knows (U+0130, U+212A),
+//     all-non-ASCII strings, names that are a single delimiter (`@`, `/`, `,`, ` `);
+//   - 0/1/2/8/9/64/65 NAME records per individual; 0/1/2/8/9/64/65 spouses, children and parent
+//     families per individual; lists that contain the same individual twice and on both sides.
+func (k *c12run) boundary() {
+	c := k.c
+	sizes := []int{8, 16, 32, 64, 65, 128, 129, 255, 256}
+	rep := func(unit string, n int) string { // n runes
+		var sb strings.Builder
+		rs := []rune(unit)
+		for i := 0; i < n; i++ {
+			sb.WriteRune(rs[(i*7+i/5)%len(rs)])
+		}
+		return sb.String()
+	}
+	for _, n := range sizes {
+		for ui, unit := range []string{"ab c", "éaüb", "王小明李", "aé王b ", "ÀÉÎ"} {
+			a := rep(unit, n)
+			shifted := string([]rune(a)[3:]) + string([]rune(a)[:3])
+			typo := k.mutate(a)
+			heavy := len(a) > 300 // the model's list-based Jaro is quadratic: the longest go through the oracle only
+			for _, b := range []string{a, typo, shifted} {
+				k.jw(a, b, c12boosts[(n+ui)%len(c12boosts)], (n+ui)%11, !heavy)
+				if !heavy {
+					k.strsim(a, b, c12boosts[(n+ui+1)%len(c12boosts)], 8)
+				} else {
+					s1 := gedcom.StringSimilarity(a, b, 0, 8)
+					s2 := gedcom.StringSimilarity(b, a, 0, 8)
+					in := map[string]interface{}{"a": a, "b": b, "boost": "0", "prefix": 8}
+					k.bounds("StringSimilarity", in, s1, s2)
+					k.symm("StringSimilarity", in, s1, s2)
+					if a == b && s1 != 1 {
+						c.Oracle("", "StringSimilarity of a non-blank name with itself is not 1", in, c12fl(s1), "1")
+					}
+					c.Eval()
+				}
+				c.Count(fmt.Sprintf("boundary:string length %d runes", n))
+			}
+		}
+	}
+	for _, p := range [][2]string{{"\xc4\xc4\xb0smail", "ismail"}, {"\xe2\xe2\x84\xaaelvin", "kelvin"}, {"\xf0\x90\xc4\xb0", "i"}, {"\xc3\xe2\x84\xaa", "k"},
+		{"@", "@"}, {"/", "/"}, {",", ","}, {"@", "/"}, {" ", " "}, {"//", "/"}, {"@I1@", "@I1@"}, {"0", "0"}, {"000", "0"}, {"\x00", "\x00"},
+		{"日本語のなまえ", "日本語のなまえ"}, {"日本語のなまえ", "日本語の名前"}, {"\xff\xfe", "\xff\xfe"}} {
+		k.strsim(p[0], p[1], c12rat{0, 1}, 8)
+		k.jw(p[0], p[1], c12rat{7, 10}, 4, true)
+		c.Count("boundary:bytes (invalid UTF-8 before special runes, all non-ASCII, single delimiters)")
+	}
+	// counts of NAME records and of relatives
+	counts := []int{0, 1, 2, 8, 9, 64, 65}
+	var sb strings.Builder
+	person := func(ptr string, names int, seed int) {
+		fmt.Fprintf(&sb, "0 @%s@ INDI\n", ptr)
+		for j := 0; j < names; j++ {
+			fmt.Fprintf(&sb, "1 NAME %s%c /%s/\n", c12given[(seed+j*3)%12], 'a'+rune(j%26), c12sur[(seed+j)%8])
+		}
+		fmt.Fprintf(&sb, "1 BIRT\n2 DATE %d\n", 1850+seed%7)
+	}
+	for qi, n := range counts { // N<n>: n NAME records; X<n>: n spouses, n children, n parent families
+		person(fmt.Sprintf("N%d", n), n, qi)
+		person(fmt.Sprintf("X%d", n), 1, qi+3)
+		for j := 0; j < n; j++ {
+			person(fmt.Sprintf("S%dx%d", n, j), 1, qi*5+j)
+			person(fmt.Sprintf("C%dx%d", n, j), 1, qi*7+j+1)
+			if j < 9 {
+				person(fmt.Sprintf("F%dx%d", n, j), 1, qi+j+2)
+			}
+		}
+	}
+	for _, n := range counts {
+		for j := 0; j < n; j++ {
+			fmt.Fprintf(&sb, "0 @FS%dx%d@ FAM\n1 HUSB @X%d@\n1 WIFE @S%dx%d@\n", n, j, n, n, j)
+			if j == 0 {
+				for q := 0; q < n; q++ {
+					fmt.Fprintf(&sb, "1 CHIL @C%dx%d@\n", n, q)
+				}
+			}
+			fmt.Fprintf(&sb, "0 @FP%dx%d@ FAM\n1 HUSB @F%dx%d@\n1 CHIL @X%d@\n", n, j, n, j%9, n)
+		}
+	}
+	text := sb.String()
+	doc, err := gedcom.NewDocumentFromString(text)
+	if err != nil {
+		panic("c12: boundary document does not decode: " + err.Error())
+	}
+	e := &c12env{ids: map[*gedcom.IndividualNode]int{}}
+	byPtr := map[string]*gedcom.IndividualNode{}
+	for j, x := range doc.Individuals() {
+		e.ids[x] = j
+		byPtr[x.Pointer()] = x
+	}
+	short := "the boundary document: N<n> has n NAME records; X<n> has n spouses (families FS<n>x*), n children (in FS<n>x0) and n parent families FP<n>x*, n in 0/1/2/8/9/64/65"
+	o := c12opts{def: true}
+	lenient := c12opts{maxYears: c12rat{10, 1}, minSim: c12rat{0, 1}, minWeighted: c12rat{0, 1}, iw: c12rat{4, 16}, pw: c12rat{4, 16}, sw: c12rat{4, 16}, cw: c12rat{4, 16},
+		ratio: c12rat{1, 2}, boost: c12rat{0, 1}, prefix: 8, prefPtr: c12rat{0, 1}}
+	for _, p := range [][2]int{{0, 0}, {0, 1}, {1, 1}, {2, 8}, {9, 9}, {8, 64}, {64, 65}, {65, 65}, {65, 0}, {1, 65}} {
+		k.indiPair(e, short, byPtr[fmt.Sprintf("N%d", p[0])], byPtr[fmt.Sprintf("N%d", p[1])], o)
+		c.Count("boundary:NAME records per individual 0/1/2/8/9/64/65")
+	}
+	for qi, p := range [][2]int{{0, 0}, {0, 1}, {1, 2}, {2, 2}, {8, 9}, {9, 9}, {2, 64}, {64, 65}, {65, 65}, {65, 0}} {
+		oo := []c12opts{o, lenient}[qi%2]
+		k.surrPair(e, short, byPtr[fmt.Sprintf("X%d", p[0])], byPtr[fmt.Sprintf("X%d", p[1])], oo, true)
+		c.Count("boundary:spouses/children/parent families per individual 0/1/2/8/9/64/65")
+	}
+	// the same individual twice in a list, and on both sides
+	a, b, d := byPtr["N1"], byPtr["N2"], byPtr["N8"]
+	for _, p := range [][2]gedcom.IndividualNodes{{{a, a}, {a}}, {{a, a, b}, {a, b, b}}, {{a, b}, {b, a}}, {{a, b, a, d}, {d, d}}, {{a}, {a}}, {{a, a, a}, {a, a, a}},
+		{{b, a, b}, {a, d, a, d, a}}} {
+		for _, oo := range []c12opts{o, lenient} {
+			k.listPair(e, short, p[0], p[1], oo)
+			c.Count("boundary:lists with the same individual twice / on both sides")
+		}
+	}
+}
+
+// histories: what an earlier call leaves behind. Nothing in jaro.go / the similarity files memoises, but
+// the scores read through memos: the package-level children-by-tag cache (NodesWithTag), the parse-once
+// DATE nodes, the remembered spouses / families of an individual and husband / wife of a family. Each
+// history observes, edits IN PLACE at depth 2 below the individual (a DATE below BIRT, a GIVN below NAME,
+// a CHIL / WIFE below a family of the individual), and observes again in the same process; the second
+// observation must equal the same observation on a freshly decoded copy of the current text (and goes
+// to the model as usual).
+func (k *c12run) histories() {
+	c := k.c
+	n := c.N(40, 600)
+	for q := 0; q < n; q++ {
+		d := k.genDoc(0, "L")
+		if len(d.indis) < 2 {
+			continue
+		}
+		x, y := d.indis[k.r.Intn(len(d.indis))], d.indis[k.r.Intn(len(d.indis))]
+		o := c12randOpts(k.r)
+		g := o.Go()
+		observe := func(doc *gedcom.Document, px, py string) [6]float64 {
+			var xx, yy *gedcom.IndividualNode
+			for _, i := range doc.Individuals() {
+				if i.Pointer() == px && xx == nil {
+					xx = i
+				}
+				if i.Pointer() == py && yy == nil {
+					yy = i
+				}
+			}
+			s := xx.SurroundingSimilarity(yy, g, true)
+			return [6]float64{xx.Similarity(yy, g), s.ParentsSimilarity, s.IndividualSimilarity, s.SpousesSimilarity, s.ChildrenSimilarity, s.WeightedSimilarity()}
+		}
+		before := observe(d.doc, x.Pointer(), y.Pointer())
+		// the edit
+		what := ""
+		switch q % 5 {
+		case 0: // a DATE below BIRT (depth 2)
+			if bs := x.Births(); len(bs) > 0 {
+				bs[0].AddNode(gedcom.NewDateNode(fmt.Sprintf("%d", 1600+k.r.Intn(50))))
+				what = "AddNode(DATE) below the first BIRT of " + x.Pointer()
+			} else {
+				x.AddBirthDate("1 Jan 1666")
+				what = "AddBirthDate on " + x.Pointer()
+			}
+		case 1: // delete the DATE nodes below DEAT / BIRT
+			for _, ev := range x.Nodes() {
+				if ev.Tag().String() == "BIRT" || ev.Tag().String() == "DEAT" {
+					for _, dn := range gedcom.NodesWithTag(ev, gedcom.TagDate) {
+						ev.DeleteNode(dn)
+						what = "DeleteNode(DATE) below " + ev.Tag().String() + " of " + x.Pointer()
+					}
+				}
+			}
+		case 2: // a GIVN below NAME changes NameNode.String()
+			if ns := x.Names(); len(ns) > 0 {
+				ns[0].AddNode(gedcom.NewNode(gedcom.TagGivenName, "Zebedee", ""))
+				what = "AddNode(GIVN Zebedee) below the first NAME of " + x.Pointer()
+			} else {
+				x.AddName("Zebedee /Young/")
+				what = "AddName on " + x.Pointer()
+			}
+		case 3: // the family of x gets another child / loses its children (depth 2 below the document's FAM)
+			if fs := x.Families(); len(fs) > 0 {
+				other := d.indis[k.r.Intn(len(d.indis))]
+				fs[0].AddChild(other)
+				what = "AddChild(" + other.Pointer() + ") on family " + fs[0].Pointer() + " of " + x.Pointer()
+			}
+		case 4:
+			if fs := x.Families(); len(fs) > 0 {
+				fs[0].SetNodes(nil)
+				what = "SetNodes(nil) on family " + fs[0].Pointer() + " of " + x.Pointer()
+			}
+		}
+		if what == "" {
+			continue
+		}
+		after := observe(d.doc, x.Pointer(), y.Pointer())
+		fresh, err := gedcom.NewDocumentFromString(d.doc.String())
+		c.Eval()
+		c.Count("history:observe / edit in place at depth 2 / observe again")
+		if err != nil {
+			continue
+		}
+		want := observe(fresh, x.Pointer(), y.Pointer())
+		if after != want {
+			c.Oracle("", "after an in-place edit the scores are not those of the current document (something remembered is stale)",
+				map[string]interface{}{"document_before": d.text, "edit": what, "left": x.Pointer(), "right": y.Pointer(), "options": o.wire(),
+					"observed": "Similarity, then parents / individual / spouses / children / weighted of SurroundingSimilarity(force)"},
+				fmt.Sprint(after), fmt.Sprint(want)+"  (same calls on a freshly decoded copy of the current text); before the edit: "+fmt.Sprint(before))
+		}
+		// and the model on the current state
+		e := &c12env{ids: map[*gedcom.IndividualNode]int{}}
+		for j, i := range d.indis {
+			e.ids[i] = j
+		}
+		k.indiPair(e, d.doc.String(), x, y, o)
+		k.surrPair(e, d.doc.String(), x, y, o, true)
+	}
+}
+
 // longNames: strings and names of 65..130 bytes (a GEDCOM NAME may have 120 characters), with repeated
 // characters, through Jaro-Winkler (model and implementation), StringSimilarity and the individuals' name
 // similarity: identical -> 1, symmetric, inside [0,1], equal to the model.
@@ -1380,6 +1597,8 @@ func init() {
 		}
 		c.Rule = "strings: every pair over {a,b} up to length 6 (thorough 8) through model and implementation, every pair over {a,b,c} up to length 5 (thorough 7) through the oracle, random strings (length < 24) over small alphabets and their typo-mutations, names with case/punctuation/space runs/Unicode/invalid UTF-8, long strings and NAME values (65..130 bytes, repeated characters, shifted copies); dates: all pairs of a boundary set, random pairs of every DATE form, distance chains; individuals, lists (with duplicates and shared people), families and surrounding similarity on random family graphs vs an edited copy or an independent graph, default and random options (weights k/20 summing to 1, prefix <= 10, MaxYears > 0); distinct = distinct string pairs / date pairs / (graph, query)"
 		k := &c12run{c: c, r: c.R, laws: map[c12rat][]c12lawPt{}}
+		k.boundary()
+		k.histories()
 		k.strings()
 		k.dates()
 		k.graphs()
